@@ -483,6 +483,55 @@ def rule_capacity_rise_repolls(ctx: Ctx) -> None:
     need(n_cls >= 1 and n_w >= 1, f"C08-7: expected at least one queue-fronted component with a run-time capacity attribute (ShiftedServer), found {n_cls} classes / {n_w} writes")
 
 
+def rule_timer_handle_not_stale(ctx: Ctx) -> None:
+    """C08-8: a pending-timer handle kept in an attribute (`self._timeout_event = Event(...)` armed by one handler) and cancelled / cleared by a
+    *generator* handler is cancelled before that generator's first clock-advancing suspension.  After the suspension the attribute may already
+    name the timer the arming handler created for the *next* batch: cancelling it strands that batch (no flush ever comes)."""
+    from ..suspend import event_class_names, node_suspension
+
+    prog = ctx.prog
+    ev = event_class_names(prog)
+    n = 0
+    for c in prog.all_classes("happysimulator/components/"):
+        armed: dict[str, set[str]] = {}
+        for m in c.methods.values():
+            for st in walk_stmts(m.node.body):
+                if isinstance(st, ast.Assign) and isinstance(st.value, ast.Call) and (path_of(st.value.func) or "").split(".")[-1] in ev:
+                    for t_ in st.targets:
+                        p_ = path_of(t_) or ""
+                        if p_.startswith("self.") and p_.count(".") == 1:
+                            armed.setdefault(p_, set()).add(m.name)
+        if not armed:
+            continue
+        for m in c.methods.values():
+            if not m.is_generator:
+                continue
+            mf = ctx.flow(m)
+            susp = [nd for nd in mf.cfg.nodes if nd.kind in ("stmt", "test", "for", "with") and node_suspension(prog, m, nd) == "advance"]
+            after: set[int] = set()
+            todo = list(susp)
+            while todo:
+                x = todo.pop()
+                for y, _lbl in x.succ:
+                    if y.id not in after:
+                        after.add(y.id)
+                        todo.append(y)
+            for a, armers in armed.items():
+                if armers <= {m.name}:
+                    continue  # only this generator arms it: nothing else can replace the handle meanwhile
+                for nd in mf.cfg.nodes:
+                    if nd.kind != "stmt":
+                        continue
+                    cancels = any(isinstance(k.func, ast.Attribute) and k.func.attr == "cancel" and path_of(k.func.value) == a for k in calls_in(nd.ast))
+                    clears = isinstance(nd.ast, ast.Assign) and any(path_of(t_) == a for t_ in nd.ast.targets) and isinstance(nd.ast.value, ast.Constant) and nd.ast.value.value is None
+                    if cancels or clears:
+                        n += 1
+                        ok = nd.id not in after
+                        ctx.ob("C08-8", "G5", m, nd.ast, ok, f"{c.name}.{m.name}: the timer handle `{a}` (armed by {sorted(armers)}) is cancelled / cleared before the generator's first clock-advancing suspension "
+                               "— afterwards the attribute may already hold the next batch's timer")
+    need(n >= 2, f"C08-8: expected >= 2 cancel/clear sites of an armed timer handle inside generator handlers (BatchProcessor), found {n}")
+
+
 def run(ctx: Ctx) -> None:
     ctx.guarded(rule_policy_contract)
     ctx.guarded(rule_ordering)
@@ -490,12 +539,14 @@ def run(ctx: Ctx) -> None:
     ctx.guarded(rule_acquire_release)
     ctx.guarded(rule_round2)
     ctx.guarded(rule_capacity_rise_repolls)
+    ctx.guarded(rule_timer_handle_not_stale)
 
 
 CODEL = QPS + "codel.py"
 DEADL = QPS + "deadline_queue.py"
 FAIR = QPS + "fair_queue.py"
 MUTANTS = [
+    ("batch-timeout-cancelled-after-processing", "happysimulator/components/industrial/batch_processor.py", '        # Cancel any pending timeout\n        if self._timeout_event is not None:\n            self._timeout_event.cancel()\n            self._timeout_event = None\n\n        self._processing = True\n        yield self.process_time\n        self._processing = False\n', '        self._processing = True\n        yield self.process_time\n        self._processing = False\n        if self._timeout_event is not None:\n            self._timeout_event.cancel()\n            self._timeout_event = None\n', "C08-8"),
     ("shifted-server-no-repoll", SHIFT, '        if new_capacity > old_capacity:\n            # Items queued while there was no free capacity are only fetched on\n            # a notify or a completion: tell the driver to look at the queue.\n            events.append(QueueNotifyEvent(time=self.now, target=self.driver, queue_entity=self.queue))\n', "", "C08-7"),
     ("shifted-server-repoll-on-drop-only", SHIFT, "        if new_capacity > old_capacity:\n            # Items queued", "        if new_capacity < old_capacity:\n            # Items queued", "C08-7"),
     ("driver-no-burst-recheck", QD, '        recheck = QueueNotifyEvent(time=self.now, target=self, queue_entity=self.queue)\n        return [target_event, recheck]\n', "        return [target_event]\n", "C08-6"),
